@@ -24,8 +24,8 @@ ID = "C11"
 TECHNIQUE = "exhaustive enumeration of generator shape x creation place x consumption place x consumption mode on the real ctx.stream under a hand-stepped loop with owned GC / async-generator finalisation points"
 RULE = (
     "generators with 0..3 items ending normally / with an exception, feature in {plain, nested "
-    "scope around the yields, record a metric, spawn a task, nested stream}; created inside a "
-    "scope (A#1) or outside; consumed in the same scope / a different scope (A#2) / outside any "
+    "scope around the yields, record a metric, spawn a task, nested stream, nested scope entry given up on a timeout}; created inside a "
+    "scope (A#1), outside, or by a task under two already completed scopes; consumed in the same scope / a different scope (A#2) / outside any "
     "scope / another task; fully, break after item j, aclose after item j, or never started and "
     "dropped; plus two streams created in one scope consumed in 5 orders in / after / outside that scope; non-trivial = consumer context differs from creation context, or the stream is "
     "not consumed to the end"
@@ -53,7 +53,7 @@ class StreamMetric(State):
     n: int = 0
 
 
-FEATURES = ["plain", "scope", "record", "spawn", "nested", "missing-item", "spawn-blocked", "record-cleanup"]
+FEATURES = ["plain", "scope", "record", "spawn", "nested", "missing-item", "spawn-blocked", "record-cleanup", "nested-enter-timeout"]
 PLACES = ["same", "other-scope", "outside", "other-task"]
 
 
@@ -62,10 +62,12 @@ def programs(tier: str):
     for k in BOUNDS[tier]["items"]:
         for end in ("normal", "error"):
             for feature in FEATURES:
-                for created in ("in-scope", "outside", "in-two-scopes"):
-                    if created == "in-two-scopes" and (feature not in ("plain", "record") or k == 0):
+                for created in ("in-scope", "outside", "in-two-scopes", "under-completed"):
+                    if created in ("in-two-scopes", "under-completed") and (feature not in ("plain", "record") or k == 0):
                         continue
                     for place in PLACES:
+                        if created == "under-completed" and place != "same":
+                            continue
                         modes = [["full"], ["unstarted"]]
                         for j in range(0, k + (1 if end == "error" else 0)):
                             if j < k:
@@ -342,6 +344,23 @@ def execute(program, ch: Chooser) -> Result:  # noqa: C901, PLR0912, PLR0915
 
                   spawned.append(ctx.spawn(blocked))
                   yield i
+              elif feature == "nested-enter-timeout":
+                  # the generator gives up entering a nested scope whose disposable is too slow
+                  # (the entry is cancelled by the timeout and handled here) and goes on
+                  class Slow:
+                      async def __aenter__(self):
+                          await asyncio.sleep(5)
+
+                      async def __aexit__(self, *a):
+                          return None
+
+                  try:
+                      async with asyncio.timeout(1):
+                          async with ctx.scope("gen-inner", disposables=[Slow()]):
+                              gen_probe("never-reached")
+                  except TimeoutError:
+                      pass
+                  yield i
               elif feature == "missing-item" and i == 0:
                   yield MISSING  # a legitimate item that happens to be the MISSING constant
               else:
@@ -437,6 +456,17 @@ def execute(program, ch: Chooser) -> Result:  # noqa: C901, PLR0912, PLR0915
                     elif place == "other-task":
                         handoff.set_result(stream_box.pop("s"))
                         await other
+        elif created == "under-completed":
+            # the stream is created (and consumed) by a task that inherited two nested scopes
+            # which have both been left - and completed - before the task gets to run
+
+            async def late_worker():
+                await consume(ctx.stream(source))
+
+            with ctx.scope("grand", completion=cb("grand")):
+                with ctx.scope("creator", a1, completion=cb("creator")):
+                    late = loop.create_task(late_worker())
+            await late
         elif created == "in-scope":
             async with ctx.scope("creator", a1, completion=cb("creator")):
                 stream_box["s"] = ctx.stream(source)
